@@ -8,8 +8,8 @@ CLAIMED = {
          "compiler-correctness theorem about the model of the emitters + header.rs; the model is tied to the real generator text (K2) and to the compiled decoders (K3) on every run, and the theorem's hypothesis is measured on the corpus", "DESIGN.md 0 and 7 C01"),
  "C02": ("Coq: C02_size_characterised -- for all specifications satisfying wf_size and all well-typed values, emitted wire_size() + 4*nF1 = |RFC 4506 encoding| (induction over the typing derivation), C02_exact, C02_wsz_mult4, C02_refuted_F1; C02_decoder_consumes_wire_size -- on F1-free specifications (sup4_b, nof1_b) every successful decode of ANY input consumed exactly wire_size() of the returned value; " + T_DEC,
          "the universal statement is a theorem about the model of the emitters and of header.rs; the model is tied to the code on every run", "DESIGN.md 7 C02"),
- "C03": ("Coq: C03_frame for every emitted module, type and input; families are two renderings of one IR body (K2) and both compiled families are run on every input (K3)",
-         "frame theorem holds for all inputs, valid or not; independence of suffix/offset is checked on the real decoders", "DESIGN.md 7 C03"),
+ "C03": ("Coq: C03_frame for every emitted module, type and input; C03_local(_decidable) -- for EVERY accepted input the same consumed bytes followed by any other suffix, at any other offset / allocation, decode to the same value (views relocated), consume the same bytes and leave the suffix untouched (two-run simulation; hypothesis local_from_b: reachable types F1-free); families are two renderings of one IR body (K2), both compiled families run on every input (K3); every accepted hostile input re-decoded in another context (ctx2 twins)",
+         "frame and locality theorems hold for all inputs, canonical or not; the two families being one body is K2", "DESIGN.md 7 C03"),
  "C04": ("Coq: C04_no_panic (sup4_b => never Panic on any byte string, any fuel; Ok has the declared shape), C04_terminates / C04_terminates_decidable (term_b => with fuel (remaining/4)*(K+1)+K+1 never Fuel: every call cycle reads a word, every loop iteration steps over a word), reader totality, cursor stays inside; K3 on every truncation, boundary / random / huge / wrapping words; deep optional chains (F9)",
          "no-panic and termination theorems for every input under decidable hypotheses evaluated on the corpus; native stack depth (F9) and allocator failure are outside a Gallina model", "DESIGN.md 7 C04"),
  "C05": ("Coq: C05_no_prefix -- for every specification satisfying sup, every well-typed value, every strict byte-granular prefix of its encoding is rejected with InvalidLength (mutual induction using the C01 round trip for the complete parts); count > max and count > bytes present are InvalidLength, count = max accepted, for all buffers (reader level); C05_refuted_F3; C05_bound_carried / C05_position_over_max (the emitted reader call carries the declared maximum, literal or constant, and a count above it is InvalidLength at that position); K3 + exhaustive prefixes / over-max values as search",
